@@ -183,17 +183,19 @@ def check_case(case, impl, model, crash, proj_opts, kinds):
         else:
             fs.append(Finding(case, "B", "stream", "unexpected line %r for %r" % (o.raw, toks), k))
         if mobs is not None:
+            # after the first disagreement the model is no longer compared, but the oracles keep judging the rest of
+            # the implementation's stream: that is the search for a concrete failing input
             if k >= len(mobs):
-                fs.append(Finding(case, "B", "stream", "model stream ended early", k)); break
+                fs.append(Finding(case, "B", "stream", "model stream ended early", k)); mobs = None; continue
             m = mobs[k]
             pi, pm = O.project(o, **proj_opts), O.project(m, **proj_opts)
             if m.kind == "R" and m.res.startswith("ub"):
-                fs.append(Finding(case, "B", "model-ub", "model reports %s for %r" % (m.res, toks), k)); break
+                fs.append(Finding(case, "B", "model-ub", "model reports %s for %r" % (m.res, toks), k)); mobs = None; continue
             if pi != pm:
-                fs.append(Finding(case, "B", "disagree", "op %r: impl %s / model %s" % (" ".join(toks), pi, pm), k)); break
+                fs.append(Finding(case, "B", "disagree", "op %r: impl %s / model %s" % (" ".join(toks), pi, pm), k)); mobs = None; continue
             if proj_opts.get("want_alloc") and o.kind == "R" and o.res != "ok":
                 if not O.alloc_subsequence_ok(m.ev, o.ev):
-                    fs.append(Finding(case, "B", "disagree", "op %r: allocator events impl %s / model %s" % (" ".join(toks), o.ev, m.ev), k)); break
+                    fs.append(Finding(case, "B", "disagree", "op %r: allocator events impl %s / model %s" % (" ".join(toks), o.ev, m.ev), k)); mobs = None; continue
     stats["exact"] = sh_.stats["exact"]; stats["invariant_only"] = sh_.stats["invariant_only"]
     if kinds is not None:
         fs = [f for f in fs if f.klass == "B" or f.kind in kinds or f.kind in ("crash", "oracle-error")]
